@@ -1664,4 +1664,192 @@ theorem ExactBits.unique {adjf : Nat → List Nat} {c a b : Nat} (ha : ExactBits
   have h2 := hb x
   cases h : hasBit a x <;> cases h' : hasBit b x <;> simp_all
 
+/-! ### the transcribed Tarjan terminates within its fuel (every digraph) -/
+
+section TarjanTerm
+variable (g : Digraph)
+
+def cwork (c : Cur) : Nat := (c.branches.length - c.branchIdx) + 1
+
+def cworkSum : List Cur → Nat
+  | [] => 0
+  | c :: cs => cwork c + cworkSum cs
+
+/-- work still to be started: every undiscovered node will contribute one cursor -/
+def usum (disc : List (Nat × Nat)) : List Nat → Nat
+  | [] => 0
+  | v :: vs => (if (lookup disc v).isNone then (g.outAdj v).length + 1 else 0) + usum disc vs
+
+def tmu (st : TState) : Nat := cworkSum st.dfs + usum g st.disc g.nodes
+
+theorem lookup_cons (k v : Nat) (m : List (Nat × Nat)) (x : Nat) :
+    lookup ((k, v) :: m) x = if k = x then some v else lookup m x := rfl
+
+theorem usum_mono (disc : List (Nat × Nat)) (nb i : Nat) (l : List Nat) :
+    usum g ((nb, i) :: disc) l ≤ usum g disc l := by
+  induction l with
+  | nil => simp [usum]
+  | cons v vs ih =>
+    simp only [usum, lookup_cons]
+    by_cases h : nb = v
+    · subst h; simp; omega
+    · simp [h]; omega
+
+theorem usum_discover (disc : List (Nat × Nat)) (nb i : Nat) (l : List Nat) (hm : nb ∈ l)
+    (hn : lookup disc nb = none) :
+    usum g ((nb, i) :: disc) l + ((g.outAdj nb).length + 1) ≤ usum g disc l := by
+  induction l with
+  | nil => simp at hm
+  | cons v vs ih =>
+    simp only [usum, lookup_cons]
+    by_cases h : nb = v
+    · subst h
+      have := usum_mono g disc nb i vs
+      simp [hn]; omega
+    · have hm' : nb ∈ vs := by
+        rcases List.mem_cons.1 hm with h' | h'
+        · exact absurd h' h
+        · exact h'
+      have := ih hm'
+      simp [h]; omega
+
+theorem usum_le (disc : List (Nat × Nat)) (l : List Nat) : usum g disc l ≤ l.length * (g.nodes.length + 1) := by
+  induction l with
+  | nil => simp [usum]
+  | cons v vs ih =>
+    have h1 : (g.outAdj v).length ≤ g.nodes.length := List.length_filter_le _ _
+    simp only [usum, List.length_cons, Nat.add_mul, Nat.one_mul]
+    split <;> omega
+
+structure TInvT (st : TState) : Prop where
+  br : ∀ c, c ∈ st.dfs → ∀ y, y ∈ c.branches → y ∈ g.nodes
+
+theorem closeComponent_dfs (st : TState) (id : Nat) : (closeComponent st id).dfs = st.dfs := by
+  unfold closeComponent; split <;> rfl
+
+theorem closeComponent_disc (st : TState) (id : Nat) : (closeComponent st id).disc = st.disc := by
+  unfold closeComponent; split <;> rfl
+
+theorem tstep_decreases (st : TState) (hne : st.dfs ≠ []) (hi : TInvT g st) :
+    TInvT g (tstep g st) ∧ tmu g (tstep g st) + 1 ≤ tmu g st := by
+  obtain ⟨index, disc, low, onStack, stack, dfs, comps, n2c⟩ := st
+  have hbr := hi.br
+  simp only at hbr hne
+  cases dfs with
+  | nil => exact absurd rfl hne
+  | cons cur rest =>
+    have hcur := hbr cur (by simp)
+    cases hn : cur.branches[cur.branchIdx]? with
+    | some nb =>
+      have hlt := getElem?_lt hn
+      have hnb : nb ∈ g.nodes := hcur nb (getElem?_mem hn)
+      cases hd : lookup disc nb with
+      | none =>
+        simp only [tstep, hn, hd, tarjanPush]
+        refine ⟨⟨?_⟩, ?_⟩
+        · intro c hc y hy
+          simp at hc
+          rcases hc with rfl | rfl | hc
+          · exact (Digraph.mem_outAdj.1 hy).1
+          · exact hcur y hy
+          · exact hbr c (by simp [hc]) y hy
+        · have := usum_discover g disc nb index g.nodes hnb hd
+          simp only [tmu, cworkSum, cwork]; omega
+      | some dn =>
+        have key : ∀ low', TInvT g ⟨index, disc, low', onStack, stack, { cur with branchIdx := cur.branchIdx + 1 } :: rest, comps, n2c⟩ ∧
+            tmu g ⟨index, disc, low', onStack, stack, { cur with branchIdx := cur.branchIdx + 1 } :: rest, comps, n2c⟩ + 1 ≤
+              tmu g ⟨index, disc, low, onStack, stack, cur :: rest, comps, n2c⟩ := by
+          intro low'
+          refine ⟨⟨?_⟩, ?_⟩
+          · intro c hc y hy
+            simp at hc
+            rcases hc with rfl | hc
+            · exact hcur y hy
+            · exact hbr c (by simp [hc]) y hy
+          · simp only [tmu, cworkSum, cwork]; omega
+        simp only [tstep, hn, hd]
+        split
+        · split
+          · exact key _
+          · exact key _
+        · exact key _
+    | none =>
+      simp only [tstep, hn]
+      refine ⟨⟨?_⟩, ?_⟩
+      · intro c hc y hy
+        rw [closeComponent_dfs] at hc
+        exact hbr c (by simp at hc; simp [hc]) y hy
+      · simp only [tmu, closeComponent_dfs, closeComponent_disc, cworkSum, cwork]; omega
+
+theorem tloop_terminates (fuel : Nat) (st : TState) (hi : TInvT g st) (hf : tmu g st ≤ fuel) :
+    (tloop g fuel st).isSome = true := by
+  induction fuel generalizing st with
+  | zero =>
+    unfold tloop
+    cases hd : st.dfs with
+    | nil => simp
+    | cons c cs =>
+      have : tmu g st ≥ 1 := by simp only [tmu, hd, cworkSum, cwork]; omega
+      omega
+  | succ fuel ih =>
+    unfold tloop
+    cases hd : st.dfs with
+    | nil => simp
+    | cons c cs =>
+      have hne : st.dfs ≠ [] := by rw [hd]; simp
+      have := tstep_decreases g st hne hi
+      simp only [List.isEmpty_cons]
+      exact ih _ this.1 (by omega)
+
+/-- invariant between the per-start loops: the dfs stack is empty -/
+theorem tloop_dfs_empty (fuel : Nat) (st st' : TState) (h : tloop g fuel st = some st') : st'.dfs = [] := by
+  induction fuel generalizing st with
+  | zero =>
+    unfold tloop at h
+    cases hd : st.dfs with
+    | nil => simp [hd] at h; subst h; exact hd
+    | cons c cs => simp [hd] at h
+  | succ fuel ih =>
+    unfold tloop at h
+    cases hd : st.dfs with
+    | nil => simp [hd] at h; subst h; exact hd
+    | cons c cs => simp [hd] at h; exact ih _ h
+
+theorem tarjanFrom_terminates (st : TState) (start : Nat) (hs : start ∈ g.nodes) :
+    (tarjanFrom g st start).isSome = true := by
+  unfold tarjanFrom
+  cases hd : lookup st.disc start with
+  | some _ => simp
+  | none =>
+    simp only
+    apply tloop_terminates
+    · refine ⟨?_⟩
+      intro c hc y hy
+      simp [tarjanPush] at hc
+      subst hc
+      exact (Digraph.mem_outAdj.1 hy).1
+    · have h1 := usum_discover g st.disc start st.index g.nodes hs hd
+      have h2 := usum_le g st.disc g.nodes
+      simp only [tmu, tarjanPush, cworkSum, cwork, tarjanFuel]; omega
+
+theorem tarjanNodes_terminates (l : List Nat) (hl : ∀ v, v ∈ l → v ∈ g.nodes) (st : TState) :
+    (tarjanNodes g l st).isSome = true := by
+  induction l generalizing st with
+  | nil => simp [tarjanNodes]
+  | cons v vs ih =>
+    unfold tarjanNodes
+    have := tarjanFrom_terminates g st v (hl v (by simp))
+    cases h : tarjanFrom g st v with
+    | none => rw [h] at this; simp at this
+    | some st' => exact ih (fun x hx => hl x (by simp [hx])) st'
+
+theorem tarjan_isSome : (tarjan g).isSome = true := by
+  unfold tarjan
+  have := tarjanNodes_terminates g g.nodes (fun _ h => h) TState.init
+  cases h : tarjanNodes g g.nodes TState.init with
+  | none => rw [h] at this; simp at this
+  | some st => simp
+
+end TarjanTerm
+
 end Dawgs.C15
